@@ -147,7 +147,7 @@ func C06() api.Check { return c06{m: c06machine()} }
 
 // C06 returns the whole-machine part of property C06.
 func c06machine() *check {
-	d := wholeMachineDesc("one evaluation = one load/store program on MVP-7.0, 7.1 or 8 with 1-4 cores; at EVERY tick a read-only snapshot (protocol states, pending snoop commands, lock counters, every L1 line of every core, L3 lines, memory) is checked for I1 (at most one Modified, then no Shared), I2 (a Shared line equals the next level), I3 (resident in L1 <=> state != Invalid, for lines without a lock, an outstanding command or a busy controller), I4 (no duplicate L1 line, size-aligned bases, full-size data), I5 (lock counters >= 0; a Sem panic counts). The architectural result is not judged. distinct_nontrivial = distinct (executed sequence, variant, cores); the counter distinct_coherence_vectors reports the distinct global coherence vectors reached",
+	d := wholeMachineDesc("one evaluation = one load/store program on MVP-7.0, 7.1 or 8 with 1-4 cores; at EVERY tick a read-only snapshot (protocol states, pending snoop commands, lock counters, every L1 line of every core, L3 lines, memory) is checked for I1 (at most one Modified, then no Shared), I2 (a Shared line equals the next level), I3 (resident in L1 <=> state != Invalid, for lines without a lock, an outstanding command or a busy controller), I4 (no duplicate L1 line, size-aligned bases, full-size data), I5 (lock counters >= 0; a Sem panic counts). The architectural result is not judged. distinct_nontrivial counts STATES, not runs: the distinct global coherence vectors (every (core, line) protocol state that is not Invalid, every outstanding snoop command, every non-zero lock count, which controllers are busy) seen at any evaluated tick of any run of (a) or (b); one run visits many, so the number can exceed evaluations",
 		[]string{"requests from 1-4 cores racing on lines", "capacity eviction (working set > L1 / L3)", "snoop evict / write-back", "request cancellation by pipeline flush", "map-order permutation (snoop request order, directory scans)"})
 	return &check{
 		id: "C06", quick: 700, thorough: 20000,
